@@ -88,7 +88,7 @@ func (p *Parser) walker(ctx interface{}, node interface{}) (stop bool) {
 			p.Migration.RemoveColumn(n.Table.String(), nc.Column.String())
 
 		case *tree.AlterTableDropNotNull:
-			p.Migration.RemoveColumn(n.Table.String(), nc.Column.String())
+			// nullability is not recorded for Postgres columns: nothing to change (the column must not be removed)
 
 		case *tree.AlterTableAlterColumnType:
 			col := element.Column{
